@@ -199,7 +199,9 @@ func drawConfig(t *rapid.T) config {
 	}
 	c.CliHeader = drawHeaders(t, "Cli", true)
 	if len(c.ExtraProto) > 0 {
-		c.CliHeader = append(c.CliHeader, [2]string{"Sec-WebSocket-Protocol", strings.Join(c.ExtraProto, ", ")})
+		// optional whitespace around the value and the list separators, as an independent RFC 7230 peer may write it
+		pad := rapid.SampledFrom([]string{"", "", " ", "\t", " \t "}).Draw(t, "ows")
+		c.CliHeader = append(c.CliHeader, [2]string{"Sec-WebSocket-Protocol", pad + strings.Join(c.ExtraProto, pad+","+pad) + pad})
 	}
 	c.SrvHeader = drawHeaders(t, "Srv", true)
 	c.CRB = rapid.SampledFrom(bufSizes).Draw(t, "crb")
@@ -472,6 +474,9 @@ func TestPeersAgree(t *testing.T) {
 		}
 		if (r.cliErr == nil) != (r.srvErr == nil) {
 			t.Fatalf("peers disagree on the outcome: client err=%v, server err=%v\nrequest:\n%s\nresponse:\n%s", r.cliErr, r.srvErr, r.req, r.resp)
+		}
+		if r.cliErr == nil && r.srvErr == nil && r.srvHS.Protocol != c.selection() {
+			t.Fatalf("both peers report subprotocol %q; the first offered protocol (over the protocol lines in order) that the server's selector accepts is %q\nrequest:\n%s\nresponse:\n%s", r.srvHS.Protocol, c.selection(), r.req, r.resp)
 		}
 		if r.cliErr == nil && renderHS(r.cliHS) != renderHS(r.srvHS) {
 			t.Fatalf("peers disagree on the result:\n client: %s\n server: %s\nrequest:\n%s\nresponse:\n%s", renderHS(r.cliHS), renderHS(r.srvHS), r.req, r.resp)
